@@ -7,12 +7,13 @@ Local Open Scope N_scope.
 Lemma C02_closed : closed_C02 syn_set1 = true.
 Proof. vm_compute. reflexivity. Qed.
 
-Theorem C02 : forall bs, Forall byte bs ->
-  agree (scan_machine syn_set1) auto1 exc_C02 P0 (ScancodeSet1_mk DecodeState_Start) bs.
-Proof. exact (C02_sound syn_set1 _ eq_refl C02_closed). Qed.
+Theorem C02 : forall s0, sc_init syn_set1 = Ret s0 -> forall bs, Forall byte bs ->
+  agree (scan_machine syn_set1) auto1 exc_C02 P0 s0 bs.
+Proof. intros s0 Hi. exact (C02_sound syn_set1 s0 Hi C02_closed). Qed.
+Example C02_init_exists : exists s0, sc_init syn_set1 = Ret s0. Proof. eexists; reflexivity. Qed.
 
-Check C02 : forall bs, Forall byte bs ->
-  agree (scan_machine syn_set1) auto1 exc_C02 P0 (ScancodeSet1_mk DecodeState_Start) bs.
+Check C02 : forall s0, sc_init syn_set1 = Ret s0 -> forall bs, Forall byte bs ->
+  agree (scan_machine syn_set1) auto1 exc_C02 P0 s0 bs.
 Print Assumptions C02.
 Eval vm_compute in ("evaluations"%string, 3 * 256).
 Eval vm_compute in ("known_cells_still_failing"%string, N.of_nat (List.length (known_cells_C02 syn_set1))).
